@@ -514,3 +514,53 @@ func LD(rc *RC, floor int) {
 		}
 	}
 }
+
+// LD2: contraction axis order of TensorMul. tensordot pairs axesA[i] of the first operand with
+// axesB[i] of the second: the first operand is transposed to (free axes..., axesA...) and the
+// second to (axesB..., free axes...) with the contracted axes *in the caller's order* on both
+// sides, so that after the reshape to 2-D the i-th contracted column of A meets the i-th
+// contracted row of B. The patterns handed to the two T() calls must be exactly
+// append(free, axesA...) and append(axesB, free...).
+func LD2(rc *RC) {
+	rc.S.Declare("LD2", "contraction axis order: in TensorMul the first operand is transposed by append(freeAxes, axesA...) and the second by append(axesB, freeAxes...) - the contracted axes keep the caller's order on both sides", 2)
+	fi := anchor(rc, "LD2", "tensor.(*Dense).TensorMul")
+	if fi == nil {
+		return
+	}
+	pos := rc.P.Pos(fi.Decl.Pos())
+	c := ir.NewCanon(rc.P.Fset, fi.Pkg.TypesInfo, ir.Options{ParamNames: true, KeepNames: true, NoSubst: true})
+	nodes := flatten(c.Func(fi.Decl))
+	tcall := regexp.MustCompile(`(%\w+)\.T\((%\w+)\.\.\.\)`)
+	var calls [][2]string // pattern variable, index in nodes
+	for i, n := range nodes {
+		if n.Kind == "if" || n.Kind == "loop" || n.Kind == "range" {
+			continue
+		}
+		if m := tcall.FindStringSubmatch(n.Head); m != nil {
+			calls = append(calls, [2]string{m[2], fmt.Sprint(i)})
+		}
+	}
+	if len(calls) != 2 {
+		rc.S.Undec("LD2", fi.Key, pos, fmt.Sprintf("expected two transpositions X.T(pattern...), found %d", len(calls)))
+		return
+	}
+	want := []*regexp.Regexp{regexp.MustCompile(`^append\(%\w+, \$axesA\.\.\.\)$`), regexp.MustCompile(`^append\(\$axesB, %\w+\.\.\.\)$`)}
+	names := []string{"first operand: append(freeAxes, axesA...)", "second operand: append(axesB, freeAxes...)"}
+	for k, cl := range calls {
+		var idx int
+		fmt.Sscan(cl[1], &idx)
+		last := ""
+		for i := 0; i < idx; i++ {
+			n := nodes[i]
+			if (n.Kind == "let" || n.Kind == "store") && n.Target == cl[0] {
+				last = n.Value
+			}
+		}
+		key := fmt.Sprintf("%s#T%d", fi.Key, k+1)
+		if want[k].MatchString(last) {
+			rc.S.Ok("LD2", key, pos, cl[0]+" = "+last)
+		} else {
+			rc.S.Viol("LD2", key, pos, fmt.Sprintf("the transposition pattern of the %s is %s = %s", names[k], cl[0], last)).Sig = "pattern " + last
+		}
+	}
+}
